@@ -135,17 +135,35 @@ func (c *CroltSimple) Schedule(ctx *core.Context, work *ScheduledWork) error {
 	}
 	core.Log(core.INFO|CRON, ctx, "CroltSimple.Schedule", "body", string(js))
 
+	// Crolt refuses to add a job that exists, and a rule that is
+	// written again comes with a new schedule: replace the job.
+	if err = c.rem(ctx, job.Account, id); err != nil {
+		return err
+	}
+
 	body := string(js)
-	url := strings.Trim(c.CroltURL, "/") + "/add"
+	url := strings.TrimRight(c.CroltURL, "/") + "/add"
 	req := core.NewHTTPRequest(ctx, "POST", url, body)
 
-	_, err = req.Do(ctx)
+	resp, err := req.Do(ctx)
+	if err == nil {
+		err = croltProblem(resp)
+	}
 	if nil != err {
 		core.Log(core.WARN|CRON, ctx, "CroltSimple.Schedule", "id", id, "error", err)
 		return err
 	}
 
 	return nil
+}
+
+// croltProblem turns an answer that says crolt did not do what we
+// asked for into an error.
+func croltProblem(resp *core.HTTPResult) error {
+	if resp == nil || resp.Status/100 == 2 {
+		return nil
+	}
+	return fmt.Errorf("crolt: %d %s", resp.Status, strings.TrimSpace(resp.Body))
 }
 
 // Rem removes the job with the given id from crolt.
@@ -174,6 +192,9 @@ func (c *CroltSimple) rem(ctx *core.Context, account string, id string) error {
 	req := core.NewHTTPRequest(ctx, "GET", u, "")
 
 	resp, err := req.Do(ctx)
+	if err == nil {
+		err = croltProblem(resp)
+	}
 	if nil != err {
 		core.Log(core.WARN|CRON, ctx, "CroltSimple.Rem", "id", id, "error", err)
 		return err
